@@ -45,7 +45,7 @@ CLAIMED["C04"] = dict(
 CLAIMED["C05"] = dict(
     engine="app",
     technique='Coq proof (byte order of power-rank keys = (power, inverted address); injectivity; over all histories every index entry is a staked unjailed validator under the key of its current stake) + oracle comparing the emulated Tendermint set with top-N after every EndBlock + correspondence',
-    text="Proved: reverse iteration of the power index is power-descending/address-ascending and keys are injective; in every reachable state every index entry is a staked unjailed validator under the key of its current stake; every batch returned by UpdateTendermintValidators is applicable to the set told to Tendermint so far (no address twice, no negative power, removals only of members) and the record of the module afterwards is that set with the batch applied. Checked on the implementation: the batch yields exactly the top-MaxValidators staked unjailed set on the emulated Tendermint set; updates equal the model's.",
+    text="Proved: reverse iteration of the power index is power-descending/address-ascending and keys are injective; in every reachable state every index entry is a staked unjailed validator under the key of its current stake; every batch returned by UpdateTendermintValidators is applicable to the set told to Tendermint so far (no address twice, no negative power, removals only of members) and the record of the module afterwards is that set with the batch applied, which is exactly the first MaxValidators entries of the index walked from the top, each with power floor(stake/10^6). Checked on the implementation: the batch yields exactly the top-MaxValidators staked unjailed set on the emulated Tendermint set; updates equal the model's.",
     note="Trusted: Coq kernel, extraction, OCaml/Go drivers incl. the projection of raw store bytes to the compared state and the emulated Tendermint set; ed25519/amino/IAVL as used by the real code. The L1 model is a hand transcription of x/auth, x/pos, x/gov and the baseapp block cycle (single denomination); Go panics outside runTx are [None] (block aborts).",
     design_ref="§6 C05")
 CLAIMED["C06"] = dict(
